@@ -2,14 +2,9 @@ module govc
 
 go 1.22
 
-require (
-	github.com/awslabs/ar-go-tools v0.0.0
-	golang.org/x/tools v0.24.0
-)
+require golang.org/x/tools v0.24.0
 
 require (
 	golang.org/x/mod v0.20.0 // indirect
 	golang.org/x/sync v0.8.0 // indirect
 )
-
-replace github.com/awslabs/ar-go-tools => /repo
